@@ -61,6 +61,9 @@ def t_addsub(E, kind, op, dlo, dhi, order):
     y = new_float(E, cls, vals, 'y')
     x0, y0 = snapshot(x), snapshot(y)
     ex, ey = f_exp(x), f_exp(y)
+    if E.mode == 'symbolic':
+        # modular: Float._denormalise by its contract (proved by task Float._denormalise)
+        E.interp.contracts[numbers.Float._denormalise] = _denormalise_contract
     # case: exponent difference and which operand is the larger one
     if order == 'x>=y':
         dd = ex - ey
@@ -120,7 +123,7 @@ def _dchunks(p):
 
 
 # double precision: exponent differences checked on every change; the rest in the thorough tier
-_DBL_QUICK = set([(d, d) for d in (0, 1, 2, 8, 9, 32, 55, 56, 57, 58, 64, 65)] + [(66, 100), (101, 180), (181, 255)])
+_DBL_QUICK = set(_dchunks(56))   # all exponent differences on every change
 
 
 # ---------------------------------------------------------------------------
@@ -263,6 +266,55 @@ def t_div_bounded(E, kind):
         E.prove(abs((a << -sh) - b) < (my << -sh), 'within less than 1 ulp of the exact quotient')
 
 
+def t_div_special(E, kind, soft):
+    """Division by zero and division of zero (the parts of Float.idiv outside the loop)."""
+    cls = CLS[kind]
+    console = _Console() if soft else None
+    vals = values_env(console=console)
+    x = new_float(E, cls, vals, 'x')
+    y = new_float(E, cls, vals, 'y')
+    x0, y0 = snapshot(x), snapshot(y)
+    xneg = f_neg(x)
+    E.assume(Or(f_is_zero(y), f_is_zero(x)))
+    r = E.call(values.div, x, y)
+    E.prove(And(same_bytes(x, x0), same_bytes(y, y0)), 'operands unchanged')
+    if bool(f_is_zero(y)):
+        E.cover('zero divisor')
+        if soft:
+            E.prove(not r.raised, 'soft-handled Division by zero continues')
+            if not r.raised:
+                E.prove(type(r.value) is cls, 'result keeps the operand type')
+                E.prove(And(Implies(xneg, same_bytes(r.value, list(cls.neg_max))),
+                            Implies(Not(xneg), same_bytes(r.value, list(cls.pos_max)))),
+                        'yields the maximum with the sign of the dividend')
+                E.prove(console.lines == [BASICError(error.DIVISION_BY_ZERO).message], 'message written once')
+        else:
+            E.prove(r.is_error(BASICError, error.DIVISION_BY_ZERO), 'zero divisor raises Division by zero')
+    else:
+        E.cover('zero dividend')
+        E.prove(not r.raised, 'never raises')
+        if not r.raised:
+            E.prove(f_is_zero(r.value) and type(r.value) is cls, 'zero divided by a non-zero number is zero')
+
+
+def t_idiv_zero_payload(E, kind):
+    """Float.idiv itself: ZeroDivisionError carries the signed maximum of the dividend's type."""
+    cls = CLS[kind]
+    vals = values_env()
+    x = new_float(E, cls, vals, 'x')
+    y = new_float(E, cls, vals, 'y')
+    E.assume(f_is_zero(y))
+    xneg = f_neg(x)
+    r = E.call(x.idiv, y)
+    E.prove(r.raised and isinstance(r.exc, ZeroDivisionError), 'raises ZeroDivisionError')
+    if r.raised and isinstance(r.exc, ZeroDivisionError):
+        pl = r.exc.args[0]
+        E.prove(type(pl) is cls, 'payload has the type of the dividend')
+        E.prove(And(Implies(xneg, same_bytes(pl, list(cls.neg_max))),
+                    Implies(Not(xneg), same_bytes(pl, list(cls.pos_max)))),
+                'payload is the maximum with the sign of the dividend')
+
+
 # ---------------------------------------------------------------------------
 # soft handling of Overflow / Division by zero
 
@@ -318,6 +370,10 @@ TASKS = [
          samples=(20000, 400000),
          scope='random and boundary-dense operand bit patterns (mantissa bytes and exponents drawn independently); '
                'not exhaustive, not counted as proved'),
+    Task('values.div (zero divisor / zero dividend)', t_div_special,
+         cases=[{'kind': k, 'soft': s_} for k in CLS for s_ in (False, True)],
+         covers=('zero divisor', 'zero dividend')),
+    Task('Float.idiv (payload of ZeroDivisionError)', t_idiv_zero_payload, cases=[{'kind': k} for k in CLS]),
     Task('FloatErrorHandler.handle', t_handler,
          cases=[{'exc': e, 'soft': s, 'suspended': u} for e in ('overflow', 'zerodiv', 'value')
                 for s in (True, False) for u in (True, False)]),
